@@ -1,6 +1,25 @@
 import Resynth.Lemmas.LREquiv
+import Resynth.Lemmas.LRSplit
+import Resynth.Lemmas.LRGrammarComplete
+import Resynth.Lemmas.LRViable
 /-!
 # C09 — the parser accepts exactly the language of the grammar and builds its syntax trees
+
+"The parser accepts exactly the token sequences of the language grammar […] and for each accepted
+statement produces the syntax tree the grammar assigns to it […].  Every other token sequence is
+rejected with a parse error, raised at the first token that cannot continue any sentence of the
+grammar — never accepted, mis-parsed or crashed on — regardless of how the tokens are split across
+lines."
+
+* `Model/LR.lean` — the automaton of `src/parse.rs` (with the two `fix:` commits C09 `f(name:)`
+  and C17 `ip:port > 65535` applied), `parseAll` / `parseLines` = the loops of `cli.rs`.
+* `Spec/Grammar.lean` — the grammar: recursive-descent `Spec.parse` and derivation relation
+  `Spec.Program`.
+
+Source positions: `Spec.parse` reproduces the positions the automaton attaches (including the
+position of the FOLLOWING token for a reference that begins an unnamed argument), so theorem 2 is a
+plain equality.  The derivation relation leaves the position of references open; theorem 3 compares
+trees through `Spec.eraseRefLoc` there.
 -/
 namespace Resynth.C09
 open Resynth.LR Resynth.Spec
@@ -18,17 +37,21 @@ theorem Reachable.inv {c} (h : Reachable c) : Inv c.state c.stack := by
   | @feed c t c' _ hf ih => have := feed_inv c t ih; rw [hf] at this; exact this
   | take _ ih => exact ih
 
-/-- **1.** No `feed` on a reachable parser ever panics (no `unreachable!()`, no `unwrap()` on an
-empty stack) and the `Goto` loop always terminates within its budget. -/
+/-- **1.** No `feed` on a reachable parser ever panics: no `unreachable!()` is hit, no `unwrap()`
+pops an empty stack, and the `Goto` loop always terminates within its budget
+(`stack.length + 16` iterations; the potential `stack.length + rank state` decreases). -/
 theorem parser_no_panic {c : Cfg} (h : Reachable c) (t : Tok) : feed c t ≠ .panic := by
   have := feed_inv c t h.inv
   intro hp; rw [hp] at this; exact this
 
-/-- whole runs never panic either -/
+/-- whole runs never panic either (all tokens at once, or line by line) -/
 theorem parseAll_no_panic (toks : List Tok) (i : Nat) : parseAll toks ≠ .panic i := by
   have := feedList_inv Cfg.init 0 (toks ++ [LR.eofTok]) Inv_init
   unfold parseAll
   cases h : feedList Cfg.init 0 (toks ++ [LR.eofTok]) <;> simp_all [RunOk]
+
+theorem parseLines_no_panic (lines : List (List Tok)) (i : Nat) : parseLines lines ≠ .panic i := by
+  rw [parseLines_eq_parseAll]; exact parseAll_no_panic _ i
 
 /-- the reference parser's result as an outcome of the implementation -/
 def specOutcome (toks : List Tok) : Outcome :=
@@ -38,7 +61,7 @@ def specOutcome (toks : List Tok) : Outcome :=
 
 /-- **2.** For every token sequence (fed, as by the command line driver, followed by `EOF`) the
 automaton and the recursive-descent reference parser agree: same accept/reject, the same
-statements (same trees), the same index of the offending token. -/
+statement list (same trees, same source positions), the same index of the offending token. -/
 theorem lr_eq_spec (toks : List Tok) : parseAll toks = specOutcome toks := by
   have h := feedList_sim Cfg.init 0 toks LR.eofTok rfl Inv_init
   unfold parseAll specOutcome Spec.parse
@@ -52,5 +75,135 @@ theorem lr_eq_spec (toks : List Tok) : parseAll toks = specOutcome toks := by
     simp at h2
     simp [h3]; omega
   | panic j => simp [hr, RunSim] at h
+
+theorem parseAll_ok_iff (toks : List Tok) (ss : List Stmt) :
+    parseAll toks = .ok ss ↔ Spec.parse toks = .ok ss := by
+  rw [lr_eq_spec, specOutcome]; cases Spec.parse toks <;> simp
+
+theorem parseAll_error_iff (toks : List Tok) (i : Nat) :
+    parseAll toks = .parseError i ↔ Spec.parse toks = .error i := by
+  rw [lr_eq_spec, specOutcome]; cases Spec.parse toks <;> simp
+
+/-- **3.** The recursive-descent parser and the derivation relation define the same language and
+the same trees: whatever `Spec.parse` accepts is a derivation of `program` with exactly the
+returned trees; every derivation of `program` is accepted, with the derived trees up to the
+source positions of references. -/
+theorem spec_sound_complete (toks : List Tok) :
+    (∀ ss, Spec.parse toks = .ok ss → Program (toks ++ [Spec.eofTok]) ss) ∧
+    (∀ ss, Program (toks ++ [Spec.eofTok]) ss →
+      ∃ ss', Spec.parse toks = .ok ss' ∧ ss'.map eraseRefLoc = ss.map eraseRefLoc) := by
+  constructor
+  · intro ss h
+    unfold Spec.parse at h
+    cases hp : sProgram [] (toks ++ [Spec.eofTok]) with
+    | error n => simp [hp] at h
+    | ok ss0 =>
+      simp [hp] at h; subst h
+      obtain ⟨ss', e, hprog⟩ := sProgram_sound hp
+      simpa [e] using hprog
+  · intro ss h
+    obtain ⟨ss', h1, h2⟩ := complete_program h []
+    exact ⟨ss', by simp [Spec.parse, h1], h2⟩
+
+/-- the language accepted by the implementation is the language of the grammar -/
+theorem accepts_iff_sentence (toks : List Tok) :
+    (∃ ss, parseAll toks = .ok ss) ↔ (∃ ss, Program (toks ++ [Spec.eofTok]) ss) := by
+  constructor
+  · rintro ⟨ss, h⟩; exact ⟨ss, (spec_sound_complete toks).1 ss ((parseAll_ok_iff _ _).1 h)⟩
+  · rintro ⟨ss, h⟩
+    obtain ⟨ss', h1, _⟩ := (spec_sound_complete toks).2 ss h
+    exact ⟨ss', (parseAll_ok_iff _ _).2 h1⟩
+
+/-- **4.** A parse error is raised exactly at the end of a viable prefix: with
+`fed = toks ++ [EOF]` the sequence fed to the parser and `i` the reported index, the tokens
+`fed[0..i)` can be completed to a sentence of the grammar (by `LR.completion` of the
+configuration reached), while no sentence begins with `fed[0..i]`. -/
+theorem viable_prefix (toks : List Tok) (i : Nat) (h : parseAll toks = .parseError i) :
+    (∃ suffix ss, Program ((toks ++ [LR.eofTok]).take i ++ suffix) ss) ∧
+    (∀ rest ss, ¬ Program ((toks ++ [LR.eofTok]).take (i + 1) ++ rest) ss) := by
+  apply viable_of_error
+  unfold parseAll at h
+  cases hr : feedList Cfg.init 0 (toks ++ [LR.eofTok]) <;> simp_all
+
+/-- **5.** Feeding the tokens line by line with `get_results` after every line (as `cli.rs`
+does), for ANY division of the token sequence into lines, gives the same concatenated statement
+list and the same error position as feeding them all at once. -/
+theorem split_invariant (lines : List (List Tok)) : parseLines lines = parseAll lines.flatten :=
+  parseLines_eq_parseAll lines
+
+/-! ## Non-vacuity: the statements of `examples/calls.rsyn` -/
+
+private def t (col : Nat) (k : TokKind) (s : String := "") : Tok := ⟨k, s, ⟨1, col⟩⟩
+
+/-- `nested(another::arg(), 1.2.3.4);` -/
+private def nested : List Tok :=
+  [t 1 .ident "nested", t 7 .lparen, t 8 .ident "another", t 15 .dcolon, t 17 .ident "arg", t 20 .lparen,
+   t 21 .rparen, t 22 .comma, t 24 .ipv4Lit "1.2.3.4", t 31 .rparen, t 32 .semi]
+
+private def nestedTree : List Stmt :=
+  [.expr (.call ⟨⟨1, 1⟩, [], ["nested"]⟩
+    (.cons none (.call ⟨⟨1, 15⟩, ["another"], ["arg"]⟩ .nil)
+    (.cons none (.lit ⟨1, 24⟩ (.ip4 0x01020304)) .nil)))]
+
+example : parseAll nested = .ok nestedTree := by rfl
+example : Spec.parse nested = .ok nestedTree := (parseAll_ok_iff _ _).1 (by rfl)
+example : Program (nested ++ [Spec.eofTok]) nestedTree :=
+  (spec_sound_complete nested).1 _ ((parseAll_ok_iff _ _).1 (by rfl))
+
+/-- `func(123, "", 1.1.1.1, 8.8.8.8:53,);` (trailing comma, socket literal) and
+`with_refs(obj.prop, name: 123) / x;`, on three lines -/
+private def multi : List (List Tok) :=
+  [[t 1 .ident "func", t 5 .lparen, t 6 .intLit "123", t 9 .comma, t 11 .strLit "", t 13 .comma],
+   [t 1 .ipv4Lit "1.1.1.1", t 8 .comma, t 10 .ipv4Lit "8.8.8.8", t 17 .colon, t 18 .intLit "53",
+    t 20 .comma, t 21 .rparen, t 22 .semi, t 24 .ident "with_refs", t 33 .lparen, t 34 .ident "obj"],
+   [t 1 .dot, t 2 .ident "prop", t 6 .comma, t 8 .ident "name", t 12 .colon, t 14 .intLit "123",
+    t 17 .rparen, t 19 .slash, t 21 .ident "x", t 22 .semi]]
+
+example : parseLines multi = .ok
+    [.expr (.call ⟨⟨1, 1⟩, [], ["func"]⟩
+      (.cons none (.lit ⟨1, 6⟩ (.u64 123)) (.cons none (.lit ⟨1, 11⟩ (.str []))
+      (.cons none (.lit ⟨1, 1⟩ (.ip4 0x01010101))
+      (.cons none (.lit ⟨1, 10⟩ (.sock4 0x08080808 53)) .nil))))),
+     .expr (.slash
+      (.call ⟨⟨1, 24⟩, [], ["with_refs"]⟩
+        (.cons none (.ref ⟨⟨1, 1⟩, [], ["obj", "prop"]⟩)
+        (.cons (some "name") (.lit ⟨1, 14⟩ (.u64 123)) .nil)))
+      (.ref ⟨⟨1, 21⟩, [], ["x"]⟩))] := by rfl
+example : parseLines multi = parseAll multi.flatten := split_invariant multi
+
+/-- `import m; let v = a / b / c;` — `/` nests to the right -/
+example : parseAll [t 1 .kwImport, t 8 .ident "m", t 9 .semi, t 11 .kwLet, t 15 .ident "v", t 17 .equals,
+      t 19 .ident "a", t 21 .slash, t 23 .ident "b", t 25 .slash, t 27 .ident "c", t 28 .semi] = .ok
+    [.imp ⟨1, 8⟩ "m",
+     .assign ⟨1, 15⟩ "v" (.slash (.ref ⟨⟨1, 19⟩, [], ["a"]⟩)
+       (.slash (.ref ⟨⟨1, 23⟩, [], ["b"]⟩) (.ref ⟨⟨1, 27⟩, [], ["c"]⟩)))] := by rfl
+
+/-- `f(name:)` is rejected at the `)` (FIX(C09)); the prefix `f(name:` is viable -/
+private def namedNoValue : List Tok :=
+  [t 1 .ident "f", t 2 .lparen, t 3 .ident "name", t 7 .colon, t 8 .rparen, t 9 .semi]
+example : parseAll namedNoValue = .parseError 4 := by rfl
+example : Spec.parse namedNoValue = .error 4 := (parseAll_error_iff _ _).1 (by rfl)
+example : (∃ suffix ss, Program ((namedNoValue ++ [LR.eofTok]).take 4 ++ suffix) ss) ∧
+    (∀ rest ss, ¬ Program ((namedNoValue ++ [LR.eofTok]).take 5 ++ rest) ss) :=
+  viable_prefix namedNoValue 4 (by rfl)
+
+/-- further rejections: `f(,)`, `f(a,,)`, `x.y::z;`, an expression statement beginning with a
+literal, a port that does not fit 16 bits (FIX(C17)), a missing `;` at the end of the input -/
+example : parseAll [t 1 .ident "f", t 2 .lparen, t 3 .comma, t 4 .rparen, t 5 .semi] = .parseError 2 := by rfl
+example : parseAll [t 1 .ident "f", t 2 .lparen, t 3 .ident "a", t 4 .comma, t 5 .comma, t 6 .rparen,
+    t 7 .semi] = .parseError 4 := by rfl
+example : parseAll [t 1 .ident "x", t 2 .dot, t 3 .ident "y", t 4 .dcolon, t 6 .ident "z", t 7 .semi]
+    = .parseError 3 := by rfl
+example : parseAll [t 1 .ipv4Lit "1.2.3.4", t 8 .semi] = .parseError 0 := by rfl
+example : parseAll [t 1 .ident "f", t 2 .lparen, t 3 .ipv4Lit "1.2.3.4", t 10 .colon, t 11 .intLit "65536",
+    t 16 .rparen, t 17 .semi] = .parseError 4 := by rfl
+example : parseAll [t 1 .ident "f", t 2 .lparen, t 3 .rparen] = .parseError 3 := by rfl
+
+/-- a configuration in the middle of a statement (after `f(`) is reachable, and feeding it a
+token neither panics nor gets stuck: theorem 1 is not vacuous -/
+example : Reachable ⟨.reduceRefCall, [.comp "f", .path ⟨⟨1, 1⟩, [], []⟩, .st .exprStmtEnd], []⟩ :=
+  have h1 : Reachable ⟨.refComponent, [.comp "f", .path ⟨⟨1, 1⟩, [], []⟩, .st .exprStmtEnd], []⟩ :=
+    .feed (t := t 1 .ident "f") .init (by rfl)
+  .feed (t := t 2 .lparen) h1 (by rfl)
 
 end Resynth.C09
